@@ -829,6 +829,9 @@ func vRunLife(c *vCase) {
 		}
 		return true
 	}
+	if (kind == "triangle" || kind == "simpulse") && scen%2 == 0 {
+		vFailedPrepareStart(c, kind, 1+r.Intn(4))
+	}
 	switch {
 	case canFail && scen < 3:
 		// failed Start(s) with the hardware silent / refusing, then a Start with data flowing
@@ -1142,4 +1145,60 @@ func init() {
 				"thorough": {"starts_delivering_blocks": 1500, "failed_starts": 150, "distinct:ordering": 20},
 			}},
 	})
+}
+
+// vFailedPrepareStart: a Start that fails in the PREPARATION steps (a source object that was never configured has no
+// channels) must leave the object Inactive; the same object is then configured, started and stopped.
+func vFailedPrepareStart(c *vCase, kind string, nchan int) {
+	var ds DataSource
+	var configure func() error
+	if kind == "triangle" {
+		ts := NewTriangleSource()
+		ds = ts
+		configure = func() error {
+			return ts.Configure(&TriangleSourceConfig{Nchan: nchan, SampleRate: 10000, Min: 100, Max: 200})
+		}
+	} else {
+		sp := NewSimPulseSource()
+		ds = sp
+		configure = func() error {
+			return sp.Configure(&SimPulseSourceConfig{Nchan: nchan, SampleRate: 10000, Pedestal: 1000, Amplitudes: []float64{5000}, Nsamp: 1000})
+		}
+	}
+	var err error
+	if !vWatched(c, "Start", 20*time.Second, func() { err = Start(ds, nil, 4, 16) }) {
+		return
+	}
+	if err == nil {
+		// not this property's business whether an unconfigured source may start; stop it and go on
+		vWatched(c, "Stop", 20*time.Second, func() { ds.Stop() })
+		return
+	}
+	c.Cov("failed_starts_in_preparation", 1)
+	if st := ds.GetState(); st != Inactive {
+		c.Violate("c10:failed-prepare-not-inactive", "a Start of a never-configured %s source failed (%v) and left the state %v, not Inactive", kind, err, st)
+		return
+	}
+	if err := configure(); err != nil {
+		c.Violate("c10:failed-prepare-no-configure", "after a Start that failed in preparation the %s source refuses a valid configuration: %v", kind, err)
+		return
+	}
+	if !vWatched(c, "Start", 20*time.Second, func() { err = Start(ds, nil, 4, 16) }) {
+		return
+	}
+	if err != nil {
+		c.Violate("c10:failed-prepare-no-restart", "after a Start that failed in preparation and a valid configuration the %s source does not start: %v", kind, err)
+		return
+	}
+	if !ds.Running() {
+		c.Violate("c10:failed-prepare-not-running", "the %s source started after a failed Start is not running", kind)
+	}
+	if !vWatched(c, "Stop", 20*time.Second, func() { ds.Stop() }) {
+		return
+	}
+	if st := ds.GetState(); st != Inactive {
+		c.Violate("c10:failed-prepare-stop-not-inactive", "the %s source started after a failed Start is %v after Stop", kind, st)
+		return
+	}
+	c.Cov("start_after_failed_preparation", 1)
 }
